@@ -9,6 +9,7 @@ import (
 	"fmt"
 	"math"
 	"net"
+	"strings"
 	"sync"
 	"time"
 
@@ -115,6 +116,13 @@ const GenXML = `<?xml version="1.0" encoding="UTF-8"?>
     <avp name="GA-Group" code="9101" must="M"><data type="Grouped"><rule avp="GA-U32" required="false"/></data></avp>
   </application>
 </diameter>`
+
+// GenXML2 is GenXML with the names of two pairs of AVPs exchanged (the codes and
+// types stay): the same name means another code than in GenXML.
+var GenXML2 = func() string {
+	r := strings.NewReplacer(`"G-Octets"`, `"G-UTF8"`, `"G-UTF8"`, `"G-Octets"`, `"G-U32"`, `"G-U64"`, `"G-U64"`, `"G-U32"`)
+	return r.Replace(GenXML)
+}()
 
 // FromNode converts an abstract value to the library's data type.
 func FromNode(n *refcodec.Node) datatype.Type {
